@@ -25,9 +25,19 @@ def interface_functions():
     return _driver_mod().parse_header(header_path())
 
 
+RUN = 1000
+
+
+def tobytes(lst):
+    """TLC stream / string -> bytes; an element 1000 + n is a run of n bytes 'x' (length classes of IdbFileFormat)"""
+    if all(e < RUN for e in lst):
+        return bytes(lst)
+    return b"".join(b"x" * (e - RUN) if e >= RUN else bytes((e,)) for e in lst)
+
+
 def b2s(lst):
     """TLC byte list -> latin-1 text (the driver's string transport)"""
-    return bytes(lst).decode("latin-1")
+    return tobytes(lst).decode("latin-1")
 
 
 def writer_lib():
